@@ -38,6 +38,14 @@ CHECKS.update({
          'Seeded workloads make the server echo client-chosen data (mailbox names with quotes, backslashes, CR/LF, NUL, 8-bit and non-ASCII, hostile headers, MIME parameters and nesting shapes) through LIST/LSUB/STATUS/FETCH/SEARCH/STORE/ID; the complete byte stream of every connection is parsed by a strict parser written from the RFC 3501 grammar, independent of pymap.parsing. The C06 input generator and the C01/C10 multi-command generators feed the same monitor.',
          'Trusted: sim/wire.py as the reading of the grammar; it enforces what the statement lists (complete CRLF lines, literal counts, quoted-string content, balanced lists, shapes of FETCH/LIST/STATUS/ENVELOPE/BODYSTRUCTURE/response codes) and accepts empty resp-text and 8-bit bytes in quoted strings.'),
 })
+CHECKS.update({
+ 'C19': ('exploration', '4/C19', 'exhaustive pre-authentication programs (length <= 2) plus seeded command programs on the simulated ManageSieve listener; dictionary model per user',
+         'ManageSieveServer runs over simulated streams with two users. Every program of one or two of the 14 commands issued before authentication is enumerated and followed by a check through fresh authenticated connections that neither user\'s store changed; seeded programs of 3-25 commands with hostile script names and arbitrary script bytes are compared against a name-to-bytes dictionary with at most one active name, including isolation between users.',
+         'Trusted: the dictionary model (profiles/c19.py) and the strict RFC 5804 response parser (sim/sieve.py). Only the dict backend\'s FilterSet is run.'),
+ 'C20': ('exploration', '4/C20', 'seeded schedules of 2-4 tasks on the real lock primitives with lock_yield and cancellation at seeded loop iterations; enter/exit overlap oracle',
+         'Harness tasks run generated programs of read/write acquisitions with yields inside the critical section on pymap.concurrent\'s asyncio read-write lock and on FileLock (tmpfs), under the virtual-time loop; asyncio.Lock acquire/release are made real suspension points and one task is cancelled at a seeded iteration in half of the cases. Oracle: no writer section overlaps any section (FileLock: no two writers), every task ends, a fresh task then obtains the write lock, the lock file is gone.',
+         'Trusted: the enter/exit log written by the harness tasks. The threading variants of the primitives are not run (same code shape as the asyncio variant before its repair).'),
+})
 NOT_YET = {}
 def main():
     props = [json.loads(l) for l in open(os.path.join(ROOT, 'properties.jsonl'))]
